@@ -170,6 +170,11 @@ def run(ctx):
     for k in range(nfiles):
         kind = rng.choice(["sparse", "dense", "dups", "dups", "dense"])
         n = rng.choice([1, 2, 3, 5, 20, 60] + ([200, 400] if (ctx.thorough or k % 10 == 0) else []))
+        long_archive = (ctx.thorough or getattr(ctx, "escalated", False)) and k in (1, 2)
+        if long_archive:
+            # a multi-year archive (more than 512 / 1024 element sets): the selection must not depend on how many sets there
+            # are - queried in the gaps around set numbers 256, 512, 1024 as everywhere else
+            n, kind = (700, 1400)[k - 1], rng.choice(["sparse", "dups"])
         fields = make_file(rng, n, kind)
         ex = [exact_ms(f) for f in fields]
         starts = []
@@ -181,6 +186,11 @@ def run(ctx):
             if i + 1 < len(ints):
                 mid = (ints[i] + ints[i + 1]) // 2
                 starts += [mid - 1, mid, mid + 1]
+        if long_archive:
+            for j in (255, 256, 511, 512, 1023, 1024):
+                if 0 < j < len(ints) and ints[j] > ints[j - 1]:
+                    g = ints[j] - ints[j - 1]
+                    starts += [ints[j - 1] + g // 4, ints[j - 1] + g // 2 - 1, ints[j - 1] + (3 * g) // 4, ints[j - 1] + 1, ints[j] - 1]
         for s in starts:
             dmin = min(abs(s - e) for e in ints)
             for thresh in (7, rng.choice([0, 1, 3, 30, 0.5]), max(0.0, (dmin + rng.choice([-2, 2, 40000])) / 86400000.0)):
